@@ -318,21 +318,45 @@ def gram_search(rng, n_cfg, n_hist, n_pairs, tol=1e-9, D=4096):
         cfg['levy'] = rng.choice(['none', 'space-time', 'space-time', 'davie'])
         try:
             with OneHot(D) as oh:
+                refine = rng.random() < 0.3
+                if refine:
+                    # answers given BEFORE and AFTER the dependency tree is refined (no dt hint: it fires after the 100-query warm-up
+                    # once the average query is short) are one Brownian path: a long first query that splits the root far from its
+                    # midpoint, then > 100 short steps, then queries overlapping the first one
+                    cfg.update(dt=None, tol=0.0, halfway=False)
                 bm = build(cfg)
-                hist = random_history(rng, cfg, n_hist)
-                for a, b in hist:
-                    query(bm, a, b, cfg)
+                if refine:
+                    t0_, sp = cfg['t0'], cfg['span']
+                    cut = rng.choice([0.9, 0.8, 0.3])
+                    lo, hi = (cut, 1.0) if cut > 0.5 else (0.0, cut)
+                    hist = [(t0_, t0_ + cut * sp), (t0_ + cut * sp, t0_ + sp)]
+                    k = 115
+                    hist += [(t0_ + (lo + (hi - lo) * i / k) * sp, t0_ + (lo + (hi - lo) * (i + 1) / k) * sp) for i in range(k)]
+                    special = [(t0_, t0_ + cut * sp), (t0_, t0_ + 0.5 * sp), (t0_, t0_ + sp), (t0_ + 0.5 * sp, t0_ + sp)]
+                    stats['refinement_scenarios'] = stats.get('refinement_scenarios', 0) + 1
+                else:
+                    hist = random_history(rng, cfg, n_hist)
+                    special = []
+                kept = None
+                for qi, (a, b) in enumerate(hist):
+                    r = query(bm, a, b, cfg)
+                    if refine and qi == 0:
+                        kept = ((a, b), r[0].clone(), None if r[1] is None else r[1].clone())  # an answer given BEFORE the refinement
                 stats['configs'] += 1
                 stats['queries'] += len(hist)
-                for _ in range(n_pairs):
+                for pi in range(n_pairs):
                     I = tuple(sorted((random_time(rng, cfg), random_time(rng, cfg))))
                     J = tuple(sorted((random_time(rng, cfg), random_time(rng, cfg))))
+                    if special and pi < 6:
+                        I, J = rng.choice(special), rng.choice(special)
                     if rng.random() < 0.3:
                         J = I
                     if I[0] == I[1] or J[0] == J[1]:
                         continue
                     WI, UI, _ = query(bm, I[0], I[1], cfg)
                     WJ, UJ, _ = query(bm, J[0], J[1], cfg)
+                    if kept is not None and pi < 3:
+                        I, WI, UI = kept  # the vector returned before the refinement, against vectors returned after it
                     t0 = cfg['t0']
                     e = brownian_cov_WU((I[0] - t0, I[1] - t0), (J[0] - t0, J[1] - t0))
                     got = [float(WI @ WJ)]
